@@ -1,6 +1,7 @@
 package rules
 
 import (
+	"os"
 	"fmt"
 	"go/token"
 	"go/types"
@@ -354,6 +355,7 @@ func runC08(c *Ctx) {
 	c.Floor("O8.1", "limit/passes comparisons in provider call trees", nTests, 12)
 	c08Delivery(c, provs)
 	c08EachBoundOnItsOwn(c, provs)
+	c08RingPassCounter(c, provs)
 	c08CtxErrors(c, provs)
 }
 
@@ -1765,4 +1767,205 @@ func c08EachBoundOnItsOwn(c *Ctx, provs []*provider) {
 		}
 	}
 	c.Floor("O8.9", "providers whose Run tree reads both Limit and Passes", n, 4)
+}
+
+// ---- O8.10: a pass over a ring of entries ends with its last entry
+
+func c08RingPassCounter(c *Ctx, provs []*provider) {
+	c.Rule("O8.10", "a pass over preloaded entries ends with its last entry: where a function takes entries from a ring (index = counter % length) and advances the pass counter that is compared with Passes, the increment happens exactly when the entry just taken is the last of the ring (index == length-1, or index+1 == length) - under no further condition (an extra guard such as `counter > 0` skips the end of the first pass of a one-entry ring: passes+1 entries are delivered from a single-element JSON array)")
+	P := c.P
+	// the pass counters: fields compared with a Passes setting
+	passCounter := map[*types.Var]bool{}
+	var fns []*ssa.Function
+	seen := map[*ssa.Function]bool{}
+	for _, pr := range provs {
+		for _, fn := range pr.Tree {
+			if !seen[fn] {
+				seen[fn] = true
+				fns = append(fns, fn)
+			}
+		}
+	}
+	for _, rel := range []string{"components/providers/http/decoders", "components/providers/http/provider"} {
+		if sp := P.SSAPkg(rel); sp != nil {
+			for _, fn := range PkgFuncs(sp) {
+				if !seen[fn] && IsProdFile(P.File(fn.Pos())) {
+					seen[fn] = true
+					fns = append(fns, fn)
+				}
+			}
+		}
+	}
+	for _, fn := range fns {
+		for _, lt := range limitTests(fn, map[string]bool{"Passes": true}) {
+			if fv, _ := FieldOf(Strip(lt.Counter)); fv != nil {
+				passCounter[fv] = true
+			}
+		}
+	}
+	n := 0
+	lenLike := func(v ssa.Value) bool {
+		for _, r := range Roots(v, false) {
+			cl, ok := Strip(r).(*ssa.Call)
+			if !ok {
+				return false
+			}
+			if bi, isB := cl.Call.Value.(*ssa.Builtin); !isB || bi.Name() != "len" {
+				return false
+			}
+		}
+		return len(Roots(v, false)) > 0
+	}
+	for _, fn := range fns {
+		// the values used as indices into slices in this function
+		var idxs []ssa.Value
+		hasRem := false
+		EachInstr(fn, func(in ssa.Instruction) {
+			switch x := in.(type) {
+			case *ssa.IndexAddr:
+				if _, isK := ConstInt(x.Index); !isK {
+					idxs = append(idxs, x.Index)
+				}
+			case *ssa.Index:
+				if _, isK := ConstInt(x.Index); !isK {
+					idxs = append(idxs, x.Index)
+				}
+			case *ssa.BinOp:
+				if _, isK := ConstInt(x.Y); x.Op == token.REM && !isK {
+					hasRem = true
+				}
+			}
+		})
+		isIdx := func(v ssa.Value) bool {
+			for _, ix := range idxs {
+				if Strip(ix) == Strip(v) || sameRoots(ix, v) {
+					return true
+				}
+			}
+			return false
+		}
+		isLast := func(f Fact) bool {
+			if f.Op != token.EQL || f.Y == nil {
+				return false
+			}
+			for _, pr := range [][2]ssa.Value{{f.X, f.Y}, {f.Y, f.X}} {
+				// index == length - 1
+				if b, ok := Strip(pr[1]).(*ssa.BinOp); ok && b.Op == token.SUB && isIdx(pr[0]) && lenLike(b.X) {
+					if k, isK := ConstInt(b.Y); isK && k == 1 {
+						return true
+					}
+				}
+				// index + 1 == length
+				if b, ok := Strip(pr[0]).(*ssa.BinOp); ok && b.Op == token.ADD && isIdx(b.X) && lenLike(pr[1]) {
+					if k, isK := ConstInt(b.Y); isK && k == 1 {
+						return true
+					}
+				}
+			}
+			return false
+		}
+		// the increments of a pass counter: stores of counter+1 into a pass-counter field, or the `p + 1` edge of a
+		// loop variable that is compared with Passes
+		var incs []ssa.Instruction
+		EachInstr(fn, func(in ssa.Instruction) {
+			st, ok := in.(*ssa.Store)
+			if !ok {
+				return
+			}
+			fv, _ := FieldOf(st.Addr)
+			if fv == nil || !passCounter[fv] {
+				return
+			}
+			if inc, isInc := Strip(st.Val).(*ssa.BinOp); isInc && inc.Op == token.ADD {
+				incs = append(incs, st)
+			}
+		})
+		for _, lt := range limitTests(fn, map[string]bool{"Passes": true}) {
+			if phi, ok := Strip(lt.Counter).(*ssa.Phi); ok {
+				// (through the phis that carry the incremented value back to the loop head)
+				seenV := map[ssa.Value]bool{}
+				var walk func(v ssa.Value)
+				walk = func(v ssa.Value) {
+					if seenV[v] {
+						return
+					}
+					seenV[v] = true
+					switch x := v.(type) {
+					case *ssa.Phi:
+						for _, e := range x.Edges {
+							walk(e)
+						}
+					case *ssa.BinOp:
+						if k, isK := ConstInt(x.Y); x.Op == token.ADD && isK && k == 1 {
+							if px, isP := x.X.(*ssa.Phi); isP && (px == phi || seenV[px]) {
+								incs = append(incs, x)
+							}
+						}
+					}
+				}
+				walk(phi)
+			}
+		}
+		if os.Getenv("PV_DEBUG") != "" && strings.Contains(fn.Name(), "runPreloaded") {
+			fmt.Fprintln(os.Stderr, "O8.10 debug", fn, "incs", len(incs), "tests", len(limitTests(fn, map[string]bool{"Passes": true})))
+			for _, lt := range limitTests(fn, map[string]bool{"Passes": true}) {
+				fmt.Fprintf(os.Stderr, "  counter %v %T\n", lt.Counter, Strip(lt.Counter))
+			}
+		}
+		for _, in := range incs {
+			hasLast := false
+			var others []Fact
+			for _, f := range DomFacts(in.Block()) {
+				if isLast(f.Canon()) || isLast(f) {
+					hasLast = true
+				} else {
+					others = append(others, f)
+				}
+			}
+			if !hasLast && !hasRem {
+				continue // not a walk over a ring (a streaming decoder counts its passes at end of file)
+			}
+			// conditions that also hold where the entry is taken from the ring are not conditions of the increment
+			extra := ""
+			for _, f := range others {
+				common := true
+				EachInstr(fn, func(i2 ssa.Instruction) {
+					var blk *ssa.BasicBlock
+					switch x := i2.(type) {
+					case *ssa.IndexAddr:
+						if isIdx(x.Index) {
+							blk = x.Block()
+						}
+					case *ssa.Index:
+						if isIdx(x.Index) {
+							blk = x.Block()
+						}
+					}
+					if blk == nil {
+						return
+					}
+					found := false
+					for _, g := range DomFacts(blk) {
+						if g.Op == f.Op && g.X == f.X && g.Y == f.Y {
+							found = true
+						}
+					}
+					if !found {
+						common = false
+					}
+				})
+				if !common {
+					x := "?"
+					if f.X != nil {
+						x = f.X.String()
+					}
+					extra = fmt.Sprintf("%s %s ...", x, f.Op)
+				}
+			}
+			n++
+			c.Check(hasLast && extra == "", "O8.10", fk(fn)+":pass-ends-with-the-last-entry-of-the-ring", in.Pos(),
+				fmt.Sprintf("the pass counter advances under `index == length-1`: %v; further conditions on the increment: %q", hasLast, extra))
+		}
+	}
+	c.Floor("O8.10", "pass-counter increments in ring walks", n, 1)
 }
